@@ -15,7 +15,7 @@ Extracted (data only; control flow is tied by the `sasl` correspondence engine):
 import os
 import re
 
-from extract import src, strip_comments, write, ExtractError, fn_body, REPO
+from extract import src, strip_comments, write, ExtractError, fn_body_x as fn_body, REPO
 
 
 def _cstr(s):
